@@ -20,6 +20,15 @@ THEOREMS = [
     "Qentem.Props.C09.sign_preserved",
     "Qentem.Props.C09.malformed_leading_zero",
     "Qentem.Props.C09.malformed_lone_dot",
+    "Qentem.Props.C09.digits_dot_digits",
+    "Qentem.Props.C09.zero_dot_digits",
+    "Qentem.Props.C09.consumed_exact_real",
+    "Qentem.Props.C09.consumed_exact_zero_dot",
+    "Qentem.Props.C09.malformed_repeated_dot",
+    "Qentem.Props.C09.malformed_empty_exponent_int",
+    "Qentem.Props.C09.malformed_empty_exponent_real",
+    "Qentem.Props.C09.strToNum_no_fault",
+    "Qentem.Props.C09.strToNum_offset_bounds",
 ]
 OPEN = []
 
